@@ -25,8 +25,8 @@ def findWrap (half a b : R) : Int :=
   let d := a - b
   if Num.ltb half d then -1 else if Num.ltb d (-half) then 1 else 0
 
-/-- one row of the stacked edge tensor: `(i1, i2, inc)` (the reliability column only decides
-the order, which is an input here) -/
+/-- one row of the integer edge tensor `stack([i1, i2, inc])` (the reliabilities, kept in a
+separate float tensor, only decide the order, which is an input here) -/
 structure Edge where
   i1 : Nat
   i2 : Nat
